@@ -20,9 +20,26 @@ def evaluate(blocks_ctx, driver, report, prop):
         names = {n.replace(":", ""): n for n in raw}
         wire_block = [[names.get(n, n), [[k, gencond.to_cv(v)] for k, v in keys]] for n, keys in tb]
         ops.append({"op": "cond", "block": wire_block, "ctx": [[k, gencond.to_cv(v)] for k, v in ctx.items()]})
+        # the same texts are also compiled by action expansion (case-insensitively) in any real use of the library:
+        # a comparison must not depend on that having happened before
+        from pycfmodel.utils import regex_from_cf_string
+
+        for _, keys in tb:
+            for _, v in keys:
+                for text in (v if isinstance(v, list) else [v]):
+                    if isinstance(text, str) and len(text) < 200:
+                        try:
+                            regex_from_cf_string(text)
+                        except Exception:
+                            pass
         try:
             r = cond(dict(ctx))
             io = {"result": r if r is None else bool(r)}
+            # the evaluator is built on the first call and kept: the second call on an equal context must agree
+            r2 = cond(dict(ctx))
+            if (r2 if r2 is None else bool(r2)) != io["result"]:
+                report.violation("oracle", "second-call-of-the-same-condition-differs", op={"block": raw, "ctx": {k: show(v) for k, v in ctx.items()}},
+                                 impl={"first": io["result"], "second": r2}, oracle="a condition's result is a function of the block and the context (C12_true_iff)")
         except BaseException as e:  # the property says: never raises
             io = {"raised": common.exc_class(e)}
         rows.append((raw, ctx, io, cond, tb))
